@@ -266,6 +266,10 @@ class Limits:
         """Return a deep copy of this Limits collection."""
         return Limits(self)
 
+    def deep_clone(self) -> "Limits":
+        """Clone for attribute inheritance: own counters, same project."""
+        return self.copy()
+
     def setProject(self, project: "Project") -> None:
         """Set the project reference."""
         if self._limits:
